@@ -135,7 +135,9 @@ type Replay struct {
 	Shrunk    int            `json:"shrink_steps"`
 	Known     string         `json:"known_finding,omitempty"`
 	Params    map[string]int `json:"params,omitempty"`
-	verified  bool
+	// ProgramCut says how the program text was minimised ("70 -> 3 definitions").
+	ProgramCut string `json:"program_minimised,omitempty"`
+	verified   bool
 }
 
 // Report is one line of node output.
